@@ -57,6 +57,7 @@ func Replay(property, path string) int {
 	fmt.Printf("replay %s: property=%s signature=%q\n  state: %s\n  event: %s\n  %d real Plan calls ...\n", filepath.Base(path), v.Property, v.Signature, key, r.Event.Label(), n)
 	p := newPool(filepath.Join(ev.Root(), ".build", strings.ToLower(property)))
 	p.n = 1
+	p.noRetry = true
 	died := false
 	p.onDeath = func(rq *request, d death) {
 		died = true
